@@ -256,8 +256,34 @@ def gen_names(rng: random.Random) -> typing.List[typing.List[str]]:
     return files
 
 
+UNREADABLE = [
+    {"hex": "232063616621e90a407365616c65640a"},          # Latin-1 text
+    {"hex": "80"}, {"hex": "40736561" + "6c6564e2820a"},  # lone continuation byte, truncated sequence
+    {"hex": "c0af0a407365616c65640a"},                    # overlong form
+    {"hex": "eda0800a407365616c65640a"},                  # encoded surrogate
+    {"hex": "fffe40007300650061006c00650064000a00"},      # UTF-16 with BOM
+    {"hex": "ff" * 40},
+    {"dir": True},
+]
+
+
+def gen_unreadable(rng: random.Random) -> dict:
+    """A namespace in which one definition file cannot be loaded as text at all (undecodable bytes, a directory under its
+    name), alone or first reached through a reference from a definition that sorts before it."""
+    bad = rng.choice(["Zq.1.0.dsdl", "Zq.1.0.dsdl", "7000.Zq.1.0.dsdl", "sub/Zq.1.0.dsdl", "Zq.1.0.uavcan"])
+    files = [["ns/" + bad, rng.choice(UNREADABLE)]]
+    if rng.random() < 0.6:
+        ref = "ns.sub.Zq.1.0" if bad.startswith("sub/") else "ns.Zq.1.0"
+        files.insert(0, ["ns/A.1.0.dsdl", "%s z\n@sealed\n" % ref])
+    if rng.random() < 0.4:
+        files.append(["ns/B.1.0.dsdl", "uint8 b\n@sealed\n"])
+    return {"kind": "unreadable", "files": files}
+
+
 def gen_case(rng: random.Random) -> dict:
     x = rng.random()
+    if x < 0.03:
+        return gen_unreadable(rng)
     if x < 0.34:
         for _ in range(20):
             text = mutate_tokens(rng.choice(BASES), rng)
@@ -359,6 +385,12 @@ def _run_files(files) -> dict:
         for rel, text in files:
             p = root / rel
             p.parent.mkdir(parents=True, exist_ok=True)
+            if isinstance(text, dict):  # not a text: raw bytes, or a directory under the name of a definition file
+                if text.get("dir"):
+                    p.mkdir(parents=True, exist_ok=True)
+                else:
+                    p.write_bytes(bytes.fromhex(text["hex"]))
+                continue
             p.write_bytes(text.encode("utf8", "replace"))
     except (OSError, ValueError) as ex:
         return {"cls": "unwritable", "soft_msg": str(ex)[:100]}
@@ -472,6 +504,8 @@ class GarbageSuite(common.Suite):
         return m
 
     def compare(self, case, impl, model, prop):
+        if case.get("kind") == "unreadable":
+            return None  # judged by the oracle only: the model predicts outcomes of texts and names
         pred = model.get("pred")
         if pred is None:
             return "model error: %s" % model.get("err")
@@ -524,6 +558,13 @@ class GarbageSuite(common.Suite):
                 yield c
             return
         files = case["files"]
+        if case.get("kind") == "unreadable":
+            for i in range(len(files)):
+                if not isinstance(files[i][1], dict) and len(files) > 1:
+                    c = dict(case)
+                    c["files"] = files[:i] + files[i + 1:]
+                    yield c
+            return
         # drop files
         if len(files) > 1:
             for i in range(len(files)):
@@ -560,6 +601,9 @@ class GarbageSuite(common.Suite):
         if impl.get("soft_origin"):
             yield "origin:" + nice_origin(impl["soft_origin"])
         text = case["files"][-1][1]
+        if isinstance(text, dict):
+            yield "unreadable:" + ("directory" if text.get("dir") else "bytes")
+            return
         if any(ord(c) < 32 and c not in "\n\t" for c in text):
             yield "has-control-characters"
         if any(ord(c) > 127 for c in text):
